@@ -17,7 +17,20 @@ ASSUMPTIONS = c01.ASSUMPTIONS + ['the TMLE fluctuation GLM solves its score equa
 TOL = dict(rtol=1e-6, atol=1e-7)
 
 
-def aiptw_cells(chk, drv, df, covs, ytype, wcol, cf, dsid, rec):
+def unreached_bound(rng, df, covs, wcol):
+    """a truncation bound that no *saturated* fitted treatment probability reaches (so it must change nothing),
+    in one of the accepted forms: False (none), symmetric float, asymmetric [lo, hi]"""
+    p = c01.exact_prop(df, covs, wcol)
+    m = float(min(p.min(), 1 - p.max())) / 2
+    k = int(rng.integers(0, 3))
+    if k == 0:
+        return False
+    if k == 1:
+        return round(m, 4) or False
+    return [round(m, 4) / 2 or 0.0001, 1 - round(m, 4)]
+
+
+def aiptw_cells(chk, drv, df, covs, ytype, wcol, cf, dsid, rec, rng=None):
     from zepid.causal.doublyrobust import AIPTW
     cols = covs + ['A', 'Y'] + ([wcol] if wcol else [])
     dist = 'poisson' if ytype == 'poisson' else 'gaussian'
@@ -26,7 +39,9 @@ def aiptw_cells(chk, drv, df, covs, ytype, wcol, cf, dsid, rec):
     for side, subs in (('outcome', gen.submodels(covs)), ('treatment', gen.submodels(covs, 'A'))):
         for sub in subs:
             a = AIPTW(df[cols], exposure='A', outcome='Y', weights=wcol)
-            a.exposure_model(gen.sat_cov(covs) if side == 'treatment' else sub, print_results=False)
+            # a bound that truncates nothing is only meaningful when the treatment model is the saturated one
+            bnd = unreached_bound(rng, df, covs, wcol) if (rng is not None and side == 'treatment') else False
+            a.exposure_model(gen.sat_cov(covs) if side == 'treatment' else sub, bound=bnd, print_results=False)
             a.outcome_model(gen.sat_out(covs) if side == 'outcome' else sub, continuous_distribution=dist,
                             print_results=False)
             a.fit()
@@ -43,7 +58,7 @@ def aiptw_cells(chk, drv, df, covs, ytype, wcol, cf, dsid, rec):
                     ref['q'] = full.df['_pY1_'].values.copy()
                 wrong = float(np.max(np.abs(a.df['_pY1_'].values - ref['q'])))
             case = {'estimator': 'AIPTW', 'saturated': side, 'other_model': sub, 'outcome': ytype, 'weights': wcol,
-                    'misspecification': wrong, 'impl': got, 'want': want, 'data': rec}
+                    'bound_unreached': bnd, 'misspecification': wrong, 'impl': got, 'want': want, 'data': rec}
             chk.case(case, (dsid, 'AIPTW', side, sub) if wrong > 1e-3 else None,
                      sample={k: v for k, v in case.items() if k != 'data'} if chk.evals % 29 == 0 else None)
             chk.count('AIPTW/%s-saturated/%s' % (side, ytype))
@@ -62,7 +77,7 @@ def aiptw_cells(chk, drv, df, covs, ytype, wcol, cf, dsid, rec):
                       dict(case, model=rep))
 
 
-def tmle_cells(chk, df, covs, ytype, cf_raw, dsid, rec):
+def tmle_cells(chk, df, covs, ytype, cf_raw, dsid, rec, rng=None):
     from zepid.causal.doublyrobust import TMLE
     cols = covs + ['A', 'Y']
     for cb in ((0.0005, 0.0) if ytype != 'binary' else (0.0005,)):
@@ -79,13 +94,14 @@ def tmle_cells(chk, df, covs, ytype, cf_raw, dsid, rec):
         for side, subs in (('outcome', gen.submodels(covs)), ('treatment', gen.submodels(covs, 'A'))):
             for sub in subs:
                 t = TMLE(df[cols], exposure='A', outcome='Y', continuous_bound=cb)
-                t.exposure_model(gen.sat_cov(covs) if side == 'treatment' else sub, print_results=False)
+                bnd = unreached_bound(rng, df, covs, None) if (rng is not None and side == 'treatment') else False
+                t.exposure_model(gen.sat_cov(covs) if side == 'treatment' else sub, bound=bnd, print_results=False)
                 t.outcome_model(gen.sat_out(covs) if side == 'outcome' else sub, print_results=False)
                 t.fit()
                 got = ({'RD': float(t.risk_difference), 'RR': float(t.risk_ratio), 'OR': float(t.odds_ratio)}
                        if ytype == 'binary' else {'ATE': float(t.average_treatment_effect)})
                 case = {'estimator': 'TMLE', 'saturated': side, 'other_model': sub, 'outcome': ytype,
-                        'continuous_bound': cb, 'impl': got, 'want': want, 'data': rec}
+                        'continuous_bound': cb, 'bound_unreached': bnd, 'impl': got, 'want': want, 'data': rec}
                 chk.case(case, (dsid, 'TMLE', side, sub, cb) if rec['_nontrivial'] else None)
                 chk.count('TMLE/%s-saturated/%s' % (side, ytype))
                 for k, v in got.items():
@@ -99,8 +115,13 @@ def aipsw_cells(chk, drv, rng, tier):
     for _ in range(nds):
         seed = int(rng.integers(0, 2 ** 31))
         df, covs = c16.combined(np.random.default_rng(seed), junk=False)
+        index_kind = str(rng.choice(['default', 'shifted', 'shuffled']))
+        if index_kind == 'shifted':
+            df.index = np.arange(len(df)) + 500
+        elif index_kind == 'shuffled':
+            df.index = np.random.default_rng(seed + 1).permutation(len(df))
         cf = c16.closed_form(df, covs)
-        rec = gen.describe(df, covs, data_seed=seed)
+        rec = gen.describe(df, covs, data_seed=seed, index=index_kind)
         dsid = hash(df.to_csv())
         cols = covs + ['A', 'Y', 'S']
         sc = gen.sat_cov(covs)
@@ -140,7 +161,7 @@ def run(chk, drv, rng, tier):
         for ytype in ('binary', 'normal', 'poisson'):
             for wcol in (None, 'w'):
                 df, covs = gen.cat_dataset(rng, outcome=ytype, weights=bool(wcol), ncov=int(rng.integers(1, 4)),
-                                           max_strata=8)
+                                           max_strata=8, index=str(rng.choice(['default', 'shifted', 'shuffled'])))
                 cf = gen.closed_form(df, covs, wcol)
                 rec = gen.describe(df, covs, outcome=ytype, weights=wcol)
                 rec['frame'] = gen.frame_record(df)
@@ -150,9 +171,9 @@ def run(chk, drv, rng, tier):
                 if not np.allclose(c01.ref_fits(df, covs, wcol), c01.exact_prop(df, covs, wcol), atol=1e-7, rtol=0):
                     chk.discard('reference GLM fit missed the cell proportions by > 1e-7')
                     continue
-                aiptw_cells(chk, drv, df, covs, ytype, wcol, cf, dsid, rec)
+                aiptw_cells(chk, drv, df, covs, ytype, wcol, cf, dsid, rec, rng)
                 if wcol is None and ytype != 'poisson':
-                    tmle_cells(chk, df, covs, ytype, cf, dsid, rec)
+                    tmle_cells(chk, df, covs, ytype, cf, dsid, rec, rng)
     aipsw_cells(chk, drv, rng, tier)
 
 
